@@ -161,7 +161,7 @@ def gen_time(rng, name, dim, *, units_pool=None):
 
 def gen_mesh(rng, max_faces=10):
     """Planar polygon mesh mixing 3..6-gons, from a jittered quad grid."""
-    w, h = rng.choice([(1, 1), (2, 1), (1, 2), (2, 2), (3, 2), (2, 3), (3, 3)])
+    w, h = rng.choice([(1, 1), (2, 1), (1, 2), (2, 2), (3, 2), (2, 3), (3, 3), (3, 3)])
     grid = _node_grid(rng, h, w)
     nid = lambda j, i: j * (w + 1) + i  # noqa: E731
     nodes = [grid[j][i] for j in range(h + 1) for i in range(w + 1)]
